@@ -1,5 +1,6 @@
 import Driver.Util
 import MlModel.Model.Merged
+import MlModel.Model.Shard
 open Lean MlModel MlModel.Merged
 namespace Driver.Merged
 
@@ -45,6 +46,17 @@ def query (parts : List (List (Except ErrKind Int) × Bool)) (maxBatch : Nat) (q
     | .ok (.num _) => return Json.arr #["e", Driver.errJson .notImpl]
     | _ =>
       let outs := chainNexts calls (mkChain parts maxBatch a b)
+      return Json.arr (outs.map outcomeJson).toArray
+  | "ds" =>
+    -- `SequenceDataSource(MergedSequences(parts, max_batch)).shard(i, k, off)` iterated with `next`
+    let i ← Driver.getInt q "i"
+    let k ← Driver.getInt q "k"
+    let off ← Driver.getInt q "off"
+    let calls ← Driver.getNat q "calls"
+    match (MlModel.Shard.DS.root (total (parts.map (·.1.length)))).shard i k off with
+    | .error e => return Json.arr #["e", Driver.errJson e]
+    | .ok d =>
+      let outs := chainNexts calls (mkChain parts maxBatch (some d.start) (some d.end))
       return Json.arr (outs.map outcomeJson).toArray
   | "range" =>
     -- `_RangeIterator(parts[p], start, stop, max_batch)` driven directly (not a public entry point;
